@@ -642,7 +642,7 @@ NewCont ==
         LET f == Fresh(m)  d == LowFree IN
         /\ FreshOk(m) /\ (k = "B" => sp = 0 /\ way = 0) /\ (way > 0 => sp = 0) /\ (k = "F" => way < 3)
         /\ Commit([op |-> "new", d |-> d, s |-> k, i |-> m + sp, j |-> way, xs |-> f] @@ S0,
-                  [cs |-> Put(d, [k |-> k, v |-> f, cap |-> IF k = "F" /\ way = 1 /\ ~Zst THEN -1 ELSE NewCap(k, m + sp),
+                  [cs |-> Put(d, [k |-> k, v |-> f, cap |-> IF k = "F" /\ way \in {1, 2} /\ ~Zst THEN -1 ELSE NewCap(k, m + sp),
                                   pr |-> IF k = "B" THEN 0 ELSE m + sp,
                                   gen |-> 0, blk |-> IF m = 0 THEN 0 ELSE nblk, off |-> 0]),
                    cr |-> Range(f), nf |-> m, nb |-> 1, inv |-> {d}] @@ E0)
